@@ -1253,3 +1253,112 @@ func init() {
 			return obs
 		}})
 }
+
+// ARITY.user-resolved-in-context — C19: user-arity reports a call against the
+// signature of the function the call REACHES.  Two packages may each define f;
+// a scope lookup by bare name that falls back to "the f of any package"
+// (Scope.Lookup / LookupLocal → lookupAnyPackageSymbol) judges alpha's (f 1)
+// by beta's signature.  The symbol must be the one the analysis resolved for
+// that head where it is written.
+func init() {
+	register(&Rule{ID: "ARITY.user-resolved-in-context", Floor: 1,
+		Doc: "in user-arity the symbol whose Signature bounds are reported is never the result of a package-agnostic scope lookup (a method of analysis.Scope that reaches lookupAnyPackageSymbol): it is taken from the analysis' resolved references, so a call is judged by the definition visible in its own package and scope",
+		Run: func(c *Ctx) []Obligation {
+			const rid = "ARITY.user-resolved-in-context"
+			p := c.Pkg("lint")
+			minM := c.LookupMethod("analysis.Signature.MinArity")
+			anyPkg := c.LookupMethod("analysis.Scope.lookupAnyPackageSymbol")
+			if p == nil || minM == nil || anyPkg == nil {
+				return []Obligation{anchorMissing(rid, "lint / analysis.Signature.MinArity / analysis.Scope.lookupAnyPackageSymbol")}
+			}
+			info := p.TypesInfo
+			agnostic := c.staticReach(func(pp string) bool { return rel(pp) == "analysis" }, anyPkg)
+			agnostic[anyPkg] = true
+			var lit *ast.FuncLit
+			for _, f := range p.Syntax {
+				ast.Inspect(f, func(n ast.Node) bool {
+					vs, ok := n.(*ast.ValueSpec)
+					if !ok || len(vs.Names) != 1 || vs.Names[0].Name != "AnalyzerUserArity" {
+						return true
+					}
+					ast.Inspect(vs, func(m ast.Node) bool {
+						if kv, ok := m.(*ast.KeyValueExpr); ok {
+							if id, ok := kv.Key.(*ast.Ident); ok && id.Name == "Run" {
+								lit, _ = kv.Value.(*ast.FuncLit)
+							}
+						}
+						return true
+					})
+					return false
+				})
+			}
+			if lit == nil {
+				return []Obligation{anchorMissing(rid, "AnalyzerUserArity.Run")}
+			}
+			// the judged symbol: X in X.Signature.MinArity()
+			var sym types.Object
+			ast.Inspect(lit.Body, func(n ast.Node) bool {
+				ce, ok := n.(*ast.CallExpr)
+				if !ok || originOf(Callee(info, ce)) != minM {
+					return true
+				}
+				if se, ok := ast.Unparen(ce.Fun).(*ast.SelectorExpr); ok {
+					if in, ok := ast.Unparen(se.X).(*ast.SelectorExpr); ok {
+						sym = identObj(info, in.X)
+					}
+				}
+				return true
+			})
+			o := Obligation{Rule: rid, Func: "lint.AnalyzerUserArity", Construct: "symbol judged", Pos: c.Pos(lit.Pos()), Nontrivial: true}
+			if sym == nil {
+				o.Verdict, o.Detail = Undecided, "the receiver of Signature.MinArity() is not a local"
+				return []Obligation{o}
+			}
+			var bad *ast.CallExpr
+			defs := 0
+			check := func(lhs []ast.Expr, rhs []ast.Expr) {
+				for i, l := range lhs {
+					if identObj(info, l) != sym {
+						continue
+					}
+					defs++
+					r := rhs[0]
+					if len(rhs) == len(lhs) {
+						r = rhs[i]
+					}
+					for _, ce := range callsIn(r, true) {
+						if f := originOf(Callee(info, ce)); f != nil && agnostic[f] {
+							bad = ce
+						}
+					}
+				}
+			}
+			ast.Inspect(lit.Body, func(n ast.Node) bool {
+				switch x := n.(type) {
+				case *ast.AssignStmt:
+					if len(x.Rhs) > 0 {
+						check(x.Lhs, x.Rhs)
+					}
+				case *ast.ValueSpec:
+					if len(x.Values) > 0 {
+						var lhs []ast.Expr
+						for _, nm := range x.Names {
+							lhs = append(lhs, nm)
+						}
+						check(lhs, x.Values)
+					}
+				}
+				return true
+			})
+			switch {
+			case bad != nil:
+				o.Pos = c.Pos(bad.Pos())
+				o.Verdict, o.Detail = Violated, "the judged symbol comes from `"+types.ExprString(bad)+"`, a bare-name lookup that falls back to a same-named symbol of ANY package: with (defun f (a) …) in package alpha and (defun f (a b) …) in package beta, alpha's correct call (f 1) is reported against beta's signature"
+			case defs == 0:
+				o.Verdict, o.Detail = Undecided, "no definition of the judged symbol found"
+			default:
+				o.Verdict, o.Detail = Proved, "not produced by a package-agnostic scope lookup"
+			}
+			return []Obligation{o}
+		}})
+}
